@@ -657,11 +657,11 @@ pub fn run(report: &Report, tier: &Tier) {
     report.set_rule(
         "Part A: shutdown at every position of every sequence of N commands out of 20 kinds (exhaustive N<=1 quick, N<=2 thorough; sampled to N=8), \
          the sequence released in one iteration or split over up to three, with 0..3 announced services and 0..3 open searches beforehand (in a third of the cases also four more open browses and 1..2 browses plus a hostname search whose receivers were dropped without a stop), \
-         optionally a second shutdown; Part B: real daemon threads on private ports, 2..8 client threads x 5..34 random calls, shutdown after \
+         optionally a second shutdown; Part A2: 1..4 calls issued on the daemon thread at the moment the k-th goodbye datagram of a shutdown goes out (hook on the simulated send); Part B: real daemon threads on private ports, 2..8 client threads x 5..34 random calls, shutdown after \
          0..6 ms; distinct by full case description (A) / (clients, calls, delay bucket) (B)",
     );
     report.assume("Part B samples OS schedules; the daemon itself is single-threaded, so queue position and iteration boundary are the schedule dimensions that reach its state");
-    for r in ["X1", "X2", "X3", "X3-after", "X4", "X5", "X6", "X3b", "X4b"] {
+    for r in ["X1", "X2", "X3", "X3-after", "X4", "X5", "X6", "X3b", "X4b", "X4-during-cleanup"] {
         report.floor(r, 10);
     }
     let seed = report.seed;
@@ -704,6 +704,11 @@ pub fn run(report: &Report, tier: &Tier) {
         let case = CaseA { cmds, pos, cuts, services: rng.usize(4), searches: rng.usize(4), abandoned: rng.usize(3), second_shutdown: rng.chance(1, 3) };
         run_case_a(&case, util::mix(seed, 0xC14_B000 + i), l);
     });
+    // Part A2: calls accepted in the middle of the clean-up
+    let n2: u64 = if tier.thorough { 30_000 } else { 800 };
+    run_parallel(report, n2, threads(), tier.budget_s * 0.1, |i, l| {
+        cleanup_race_case(util::mix(seed, 0xC14_E000 + i), l);
+    });
     // Part B
     let real: u64 = if tier.thorough { 20_000 } else { 300 };
     run_parallel(report, real, threads().min(8), tier.budget_s * 0.25, |i, l| {
@@ -712,6 +717,112 @@ pub fn run(report: &Report, tier: &Tier) {
     if tier.thorough || std::env::var("VERIF_C14_TSAN").is_ok() {
         tsan_part(report, seed);
         memcheck_part(report, seed);
+    }
+}
+
+// ---------------------------------------------------------------------------
+// Part A2: calls that arrive while the clean-up of a shutdown is under way
+//
+// A hook on the simulated send lets the harness issue API calls on the daemon thread at the very
+// moment the k-th goodbye datagram goes out, i.e. between the daemon taking `shutdown` off its
+// queue and its thread ending: the one window the gate (which works between iterations) cannot
+// reach. Such a call was accepted (Ok), so its reply channel must yield or close (X4), and an
+// accepted browse / resolve_hostname must not be left without any event for ever.
+
+pub fn cleanup_race_case(seed: u64, l: &mut Local) {
+    use std::sync::atomic::{AtomicBool, AtomicU64, Ordering};
+    use std::sync::{Arc, Mutex};
+    l.evaluations += 1;
+    let mut rng = Rng::new(seed);
+    let mut w = World::new(seed);
+    w.set_stepping(Stepping::Lazy);
+    let h = w.add_host(if rng.chance(1, 2) { scen::single_dual() } else { scen::single_v4() });
+    let t0 = w.now();
+    let services = 1 + rng.usize(3);
+    for i in 0..services {
+        w.register(h, setup_reg(i));
+    }
+    let searches = rng.usize(3);
+    if searches >= 1 {
+        w.browse(h, T1);
+    }
+    if searches >= 2 {
+        w.resolve_hostname(h, HOSTNAME, None);
+    }
+    w.run_until(t0 + 3000);
+    let Some(daemon) = w.hosts[h].daemon.clone() else { return };
+    // the calls, issued when the k-th datagram after arming goes out
+    let k = 1 + rng.below(2 * services as u64 + 1);
+    let picks: Vec<u64> = (0..1 + rng.usize(4)).map(|_| rng.below(8)).collect();
+    let armed = Arc::new(AtomicBool::new(false));
+    let count = Arc::new(AtomicU64::new(0));
+    let late: Arc<Mutex<Vec<(&'static str, Result<Option<Reply>, String>)>>> = Arc::new(Mutex::new(Vec::new()));
+    {
+        let (armed, count, late, picks) = (armed.clone(), count.clone(), late.clone(), picks.clone());
+        let ctx = w.hosts[h].ctx.clone();
+        ctx.lock().on_egress = Some(Box::new(move |_sent| {
+            if !armed.load(Ordering::SeqCst) {
+                return;
+            }
+            if count.fetch_add(1, Ordering::SeqCst) + 1 != k {
+                return;
+            }
+            let mut out = late.lock().unwrap();
+            for p in picks.iter() {
+                let r: (&'static str, Result<Option<Reply>, String>) = match p {
+                    0 => ("status", daemon.status().map(|x| Some(Reply::Status(x))).map_err(|e| e.to_string())),
+                    1 => ("get_metrics", daemon.get_metrics().map(|x| Some(Reply::Metrics(x))).map_err(|e| e.to_string())),
+                    2 => ("browse", daemon.browse("_late._udp.local.").map(|x| Some(Reply::Service(x))).map_err(|e| e.to_string())),
+                    3 => ("resolve_hostname", daemon.resolve_hostname("late-host.local.", None).map(|x| Some(Reply::Host(x))).map_err(|e| e.to_string())),
+                    4 => ("unregister", daemon.unregister("svc0._t._udp.local.").map(|x| Some(Reply::Unreg(x))).map_err(|e| e.to_string())),
+                    5 => ("monitor", daemon.monitor().map(|x| Some(Reply::Daemon(x))).map_err(|e| e.to_string())),
+                    6 => ("shutdown", daemon.shutdown().map(|x| Some(Reply::Status(x))).map_err(|e| e.to_string())),
+                    _ => ("browse_cache", daemon.browse_cache("_late2._udp.local.").map(|x| Some(Reply::Service(x))).map_err(|e| e.to_string())),
+                };
+                out.push(r);
+            }
+        }));
+    }
+    armed.store(true, Ordering::SeqCst);
+    let sd = w.shutdown(h);
+    w.settle();
+    w.run_for(500);
+    w.hosts[h].ctx.lock().on_egress = None;
+    l.distinct.insert(util::fnv_str(&format!("A2|{services}|{searches}|{k}|{picks:?}")));
+    if w.trace.deaths().any(|d| matches!(d.ev, Ev::Death { panicked: true, .. })) {
+        let p = w.trace.deaths().next().map(|d| format!("{:?}", d.ev)).unwrap_or_default();
+        l.violate(Violation::new("X5", "X5/daemon-panicked/calls-during-clean-up", format!("the daemon thread panicked during shutdown: {}", util::strip_numbers(&p))).with(json!({"seed": seed})));
+        return;
+    }
+    if sd.is_none() || !w.hosts[h].dead {
+        l.inconclusive.push(format!("shutdown did not end the daemon thread in a clean-up scenario (seed {seed})"));
+        return;
+    }
+    let late = late.lock().unwrap();
+    if late.is_empty() {
+        // fewer datagrams than k went out: nothing was issued
+        return;
+    }
+    l.act("X4-during-cleanup");
+    let names: Vec<&str> = late.iter().map(|(n, _)| *n).collect();
+    let mut open: Vec<&str> = Vec::new();
+    for (name, r) in late.iter() {
+        if let Ok(Some(reply)) = r {
+            let mut got = false;
+            if !reply.resolved(&mut got) {
+                open.push(name);
+            }
+        }
+    }
+    if !open.is_empty() {
+        l.violate(
+            Violation::new(
+                "X4",
+                "X4/receiver-open-and-empty/accepted-while-goodbyes-went-out",
+                format!("calls accepted while the goodbyes of shutdown were being sent ({names:?}) were never answered: the reply receivers of {open:?} are still open and empty after the daemon thread ended"),
+            )
+            .with(json!({"seed": seed, "services": services, "searches": searches, "issued_at_datagram": k, "calls": names, "trace": scen::witness(&w.trace, 30)})),
+        );
     }
 }
 
